@@ -236,7 +236,10 @@ def _wrun(chunk):
 def replay_all(univ, cases, gens, opts, procs=14, chunk=200):
     """Replay every case under every code-generation setting in `gens`. Returns (n_runs, mismatches)."""
     from lib import common
-    cases = sorted(cases, key=lambda c: c["d"])
+    # the cases of one declaration in a fixed pseudo-random order: what one execution leaves behind on the shared
+    # class (failing ones included) is then met by every kind of later execution within each chunk
+    import hashlib
+    cases = sorted(cases, key=lambda c: (c["d"], hashlib.md5(json.dumps([c["raw"], c["start"]]).encode()).hexdigest()))
     chunks = [cases[i:i + chunk] for i in range(0, len(cases), chunk)]
     from bind import declgen, observe, trace_packet      # import errors must surface here, not kill pool workers silently
     ctx = multiprocessing.get_context("fork")
